@@ -262,7 +262,7 @@ func TestChecksumCases(t *testing.T) {
 	}
 	var rel []ckCase
 	for _, c := range cases {
-		if c.Launch == "relpath" {
+		if c.Launch == "relpath" || c.Launch == "reldir" {
 			rel = append(rel, c)
 			continue
 		}
@@ -311,9 +311,26 @@ func runRelPathCase(c ckCase, dir string) map[string]interface{} {
 	os.Chdir(work)
 	os.Setenv("PATH", evil+string(os.PathListSeparator)+oldPath)
 	defer func() { os.Chdir(oldwd); os.Setenv("PATH", oldPath) }()
+	command := &exec.Cmd{Path: name, Args: []string{name}}
+	if c.Launch == "reldir" {
+		// a relative path with a directory part and a working directory for the command: os/exec runs the path
+		// relative to Cmd.Dir. The file there is the file at the command path (it writes the marker); the file of
+		// the same relative name under the host's own working directory is the other one. Class "exact": the
+		// checksum of the file in Cmd.Dir; class "other": the checksum of the one in the host's directory.
+		os.WriteFile(filepath.Join(evil, name), body, 0o755)
+		decoy := scriptBody(otherMarker, c.FileSeed+1, c.FileSize)
+		os.WriteFile(filepath.Join(work, name), decoy, 0o755)
+		if c.Class != "exact" {
+			hd := newHash(c.Hash)
+			hd.Write(decoy)
+			want = hd.Sum(nil)
+		}
+		command = &exec.Cmd{Path: "./" + name, Args: []string{name}, Dir: evil}
+		os.Setenv("PATH", oldPath)
+	}
 	cl := plugin.NewClient(&plugin.ClientConfig{
 		HandshakeConfig: plugin.HandshakeConfig{ProtocolVersion: 1, MagicCookieKey: "K", MagicCookieValue: "V"},
-		Plugins:         plugin.PluginSet{}, Cmd: &exec.Cmd{Path: name, Args: []string{name}},
+		Plugins:         plugin.PluginSet{}, Cmd: command,
 		SecureConfig: &plugin.SecureConfig{Checksum: want, Hash: newHash(c.Hash)}, StartTimeout: 400 * time.Millisecond, Logger: hclog.NewNullLogger(),
 	})
 	_, err := cl.Start()
